@@ -161,7 +161,7 @@ fn one_history(cfg: &Cfg, r: &mut Report, s: &Arc<Sched>, rt: &tokio::runtime::R
         let app2 = app.clone();
         let mut srng = Rng::derive(rng.next_u64(), 777);
         let router_result = rt.block_on(async move {
-            let mut posted = 0u64;
+            let mut posted: Vec<String> = Vec::new();
             let mut task_ids: Vec<String> = Vec::new();
             let mut joins = Vec::new();
             for i in 0..n_sessions {
@@ -173,10 +173,14 @@ fn one_history(cfg: &Cfg, r: &mut Report, s: &Arc<Sched>, rt: &tokio::runtime::R
                     _ => format!("plain prompt {i}"),
                 };
                 joins.push(tokio::spawn(async move {
-                    let (st, _) = app
+                    let (st, v) = app
                         .json("POST", &format!("/threads/{c0}/messages"), Some(&json!({"content": content})))
                         .await;
-                    st == 202
+                    if st == 202 {
+                        v.get("session_id").and_then(|x| x.as_str()).map(|x| x.to_string())
+                    } else {
+                        None
+                    }
                 }));
             }
             for i in 0..n_tasks {
@@ -194,8 +198,8 @@ fn one_history(cfg: &Cfg, r: &mut Report, s: &Arc<Sched>, rt: &tokio::runtime::R
                 }
             }
             for j in joins {
-                if let Ok(true) = j.await {
-                    posted += 1;
+                if let Ok(Some(sid)) = j.await {
+                    posted.push(sid);
                 }
             }
             (posted, task_ids)
@@ -215,11 +219,11 @@ fn one_history(cfg: &Cfg, r: &mut Report, s: &Arc<Sched>, rt: &tokio::runtime::R
             let runs_done = wait_for(Duration::from_secs(30), || {
                 let bytes = std::fs::read(&log_path).unwrap_or_default();
                 let text = String::from_utf8_lossy(&bytes);
-                let ended = text.matches("\"type\":\"continuity_run_ended\"").count() as u64;
-                let spawned_by_router = posted;
-                // run_ended frames from actors are included; require at least the router's runs' session_ended
-                let sess_ended = text.matches("\"type\":\"session_ended\"").count() as u64;
-                if sess_ended >= spawned_by_router && ended >= spawned_by_router {
+                // every run posted through the router must have ITS OWN run_ended line (the last frame a run writes)
+                let all = posted.iter().all(|sid| {
+                    text.lines().any(|l| l.contains("\"type\":\"continuity_run_ended\"") && l.contains(sid.as_str()))
+                });
+                if all {
                     Some(())
                 } else {
                     None
@@ -246,7 +250,12 @@ fn one_history(cfg: &Cfg, r: &mut Report, s: &Arc<Sched>, rt: &tokio::runtime::R
             runs_done && tasks_done
         });
         if !quiet {
+            // writers of this engine may still be active: neither judge a log that is still growing nor open a
+            // second engine next to a live one (a real store has a single authority)
             r.inconclusive(&format!("case {idx}: runs/tasks did not quiesce within the watchdog"));
+            drop(app);
+            failed = true;
+            break;
         }
         drop(app);
         // judge at every restart boundary
@@ -345,38 +354,21 @@ fn judge(r: &mut Report, store: &Store, shared: &Shared, idx: u64, phase: u32, t
             return true;
         }
     }
-    // sidecar == log filtered to the continuity
+    // sidecar vs log filtered to the continuity: NOT part of C01's statement (that is C03/C04's subject);
+    // recorded as an observation only
     let conts = shared.conts.lock().unwrap().clone();
     for c in conts {
         let in_log: Vec<&truth::Frame> = truth::stream(&frames, "continuity", &c);
         let side_path = store.streams_dir().join(format!("{c}.jsonl"));
         let Ok(side) = std::fs::read(&side_path) else {
-            continue; // a missing cache is not a C01 matter
+            continue;
         };
         match truth::parse_log(&side) {
             Ok(sf) => {
                 let same = sf.len() == in_log.len() && sf.iter().zip(in_log.iter()).all(|(a, b)| a.v == b.v);
-                if !same {
-                    r.violation(
-                        "C01/sidecar_differs_from_log",
-                        &format!(
-                            "continuity sidecar has {} frames, log has {} for {c} (or contents differ)",
-                            sf.len(),
-                            in_log.len()
-                        ),
-                        witness(json!({"continuity": c, "sidecar": sf.len(), "log": in_log.len()})),
-                    );
-                    return true;
-                }
+                r.count(if same { "sidecars_equal_to_log" } else { "sidecars_differing_from_log_observed" }, 1);
             }
-            Err(e) => {
-                r.violation(
-                    "C01/sidecar_torn",
-                    &format!("continuity sidecar is not whole JSON lines: {}", e.detail),
-                    witness(json!({"continuity": c, "error": e.detail})),
-                );
-                return true;
-            }
+            Err(_) => r.count("sidecars_differing_from_log_observed", 1),
         }
     }
     r.count("frames_judged", frames.len() as u64);
